@@ -5,6 +5,11 @@ import pymc as pm
 import pytensor.tensor as pt
 from astropy.utils.decorators import deprecated_renamed_argument
 
+try:
+    from pytensor.graph.traversal import ancestors
+except ImportError:  # older pytensor
+    from pytensor.graph.basic import ancestors
+
 import thejoker.units as xu
 
 # Project
@@ -179,6 +184,32 @@ class JokerPrior:
                     f"{name})"
                 )
                 raise ValueError(msg)
+
+            # "independent": the likelihood helper evaluates mu and sigma of these
+            # priors ONCE, so they must not depend on other random variables. The
+            # one supported exception is FixedCompanionMass for K, whose dependence
+            # on (P, e) is implemented in the helper.
+            is_fcm = p.owner.op._print_name[0] == "FixedCompanionMass"
+            if is_fcm and name != "K":
+                msg = (
+                    "A FixedCompanionMass prior is only supported for K, not for "
+                    f"{name}"
+                )
+                raise ValueError(msg)
+
+            if not is_fcm:
+                dist_params = p.owner.op.dist_params(p.owner)
+                if any(
+                    v.owner is not None
+                    and isinstance(v.owner.op, pt.random.op.RandomVariable)
+                    for v in ancestors(dist_params)
+                ):
+                    msg = (
+                        "Priors on the linear parameters (K, v0, etc.) must be "
+                        f"independent Normal distributions: the prior on {name} "
+                        "depends on another random variable"
+                    )
+                    raise ValueError(msg)
 
         self.pars = pars
 
